@@ -166,6 +166,59 @@ Theorem C08_replace_call_whole : forall name ps tmpl args,
   = (expand_template (S (String.length tmpl)) tmpl ps args, true).
 Proof. exact replace_call_whole. Qed.
 
+(** blanks (spaces and TABs) between the name of a function-like macro and the parenthesis of a
+    call do not matter (repaired defect: "add (1,2)" was left unexpanded): NAME blanks (args)
+    expands exactly like NAME(args).  [skip_blanks b = ""]: [b] is made of blanks and TABs *)
+Theorem C08_blank_before_paren : forall name ps tmpl args b,
+  wordy name -> Forall arg_ok args -> args <> [] -> List.length ps = List.length args ->
+  skip_blanks b = "" ->
+  replace_call name ps tmpl (name ++ b ++ "(" ++ String.concat "," args ++ ")")
+  = replace_call name ps tmpl (name ++ "(" ++ String.concat "," args ++ ")").
+Proof. exact replace_call_blank_before_paren. Qed.
+
+(** the general form, at any position of the text: a hit of the call pattern *)
+Theorem C08_call_pattern_hit : forall f name ps tmpl prev s b s' args rest,
+  s = name ++ b ++ "(" ++ s' ->
+  boundary_before prev = true -> name <> "" -> skip_blanks b = "" ->
+  capture_args (String.length s) (List.length ps) s' = Some (args, rest) ->
+  replace_call_aux (S f) name ps tmpl prev s =
+  (expand_template (S (String.length tmpl)) tmpl ps args
+     ++ fst (replace_call_aux f name ps tmpl (Some ")"%char) rest), true).
+Proof. exact rca_hit_blanks. Qed.
+
+Example C08_blank_before_paren_example :
+  let TB := String (ascii_of_nat 9) "" in
+  cpp_output (run_cpp [] "m.c" [] ["#define add(a,b) a+b" ++ nl; "x = add (1,2);" ++ nl]) = Some ("x = 1+2;" ++ nl)
+  /\ cpp_output (run_cpp [] "m.c" [] ["#define add(a,b) a+b" ++ nl; "x = add" ++ TB ++ "(1,2);" ++ nl]) = Some ("x = 1+2;" ++ nl)
+  /\ cpp_output (run_cpp [] "m.c" [] ["#define add(a,b) a+b" ++ nl; "x = add " ++ TB ++ " (1,2);" ++ nl]) = Some ("x = 1+2;" ++ nl)
+  /\ cpp_output (run_cpp [] "m.c" [] ["#define add(a,b) a+b" ++ nl; "x = add(1,2);" ++ nl]) = Some ("x = 1+2;" ++ nl).
+Proof. exact blank_before_paren_example. Qed.
+
+(** a macro without parameters: blanks may also stand between the parentheses *)
+Theorem C08_zero_param_blank : forall name tmpl b1 b2,
+  wordy name -> skip_blanks b1 = "" -> skip_blanks b2 = "" ->
+  replace_call name [] tmpl (name ++ b1 ++ "(" ++ b2 ++ ")")
+  = (expand_template (S (String.length tmpl)) tmpl [] [], true).
+Proof. exact replace_call_zero_param_blank. Qed.
+
+Example C08_zero_param_blank_example :
+  let TB := String (ascii_of_nat 9) "" in
+  cpp_output (run_cpp [] "m.c" [] ["#define f() 7" ++ nl; "x = f( );" ++ nl]) = Some ("x = 7;" ++ nl)
+  /\ cpp_output (run_cpp [] "m.c" [] ["#define f() 7" ++ nl; "x = f ( );" ++ nl]) = Some ("x = 7;" ++ nl)
+  /\ cpp_output (run_cpp [] "m.c" [] ["#define f() 7" ++ nl; "x = f();" ++ nl]) = Some ("x = 7;" ++ nl)
+  /\ cpp_output (run_cpp [] "m.c" [] ["#define f() 7" ++ nl; "x = f" ++ TB ++ "(" ++ TB ++ " );" ++ nl]) = Some ("x = 7;" ++ nl).
+Proof. exact zero_param_blank_example. Qed.
+
+(** what does not change: object-like macros, names without a parenthesis, other separators *)
+Example C08_blank_before_paren_negative :
+  cpp_output (run_cpp [] "m.c" [] ["#define A (x)" ++ nl; "A (1)" ++ nl]) = Some ("(x) (1)" ++ nl)
+  /\ cpp_output (run_cpp [] "m.c" [] ["#define add(a,b) a+b" ++ nl; "y = add + 1;" ++ nl]) = Some ("y = add + 1;" ++ nl)
+  /\ cpp_output (run_cpp [] "m.c" [] ["#define add(a,b) a+b" ++ nl; "y = add  ;" ++ nl]) = Some ("y = add  ;" ++ nl)
+  /\ replace_call "add" ["a"; "b"] "$a+$b" ("add" ++ nl ++ "(1,2)") = ("add" ++ nl ++ "(1,2)", false)
+  /\ replace_call "add" ["a"; "b"] "$a+$b" "xadd (1,2) add_ (1,2)" = ("xadd (1,2) add_ (1,2)", false)
+  /\ replace_call "f" [] "7" "f(1) f(,)" = ("f(1) f(,)", false).
+Proof. exact blank_before_paren_negative. Qed.
+
 (** #undef removes exactly the named macro *)
 Theorem C08_undefine_exact : forall ms n m, NoDup (map fst ms) ->
   get_macro (undefine ms n) m = if String.eqb m n then None else get_macro ms m.
